@@ -3,8 +3,10 @@ Model of `lattices/src/semiring_application.rs`.
 
 `BinaryTrust(bool)`, `Multiplicity(u32)`, `Cost(U32WithInfinity)` are modelled on `Bool`, `Nat`
 (with the `checked_*().unwrap()` panic as `none`) and `Option Nat` (`none` = `Infinity`).
-`Cost::mul` uses a bare `a + b` on `u32`: with overflow checks (debug) it panics, without
-(release) it wraps — both are modelled.
+`Cost::mul` is `a.checked_add(b).unwrap()` since /repo `fix: Cost::mul …` (finding F91): it panics on
+overflow in every build profile (`Cost.mul`).  Before that fix it was a bare `a + b` on `u32`, which
+panics with overflow checks (debug) and wraps without (release, the profile the checks build):
+`Cost.mulWrappingBeforeFix` keeps that old release behaviour only for the refutation theorem.
 `ConfidenceScore(f64)` / `FuzzyLogic(f64)`: floating point is NOT modelled for the theorems; the
 definitions over Lean's native `Float` (IEEE double, executed by the compiled driver only) exist so
 that the correspondence check can compare bit patterns with the Rust code.
@@ -59,8 +61,9 @@ def mulNat : V → V → V
   | _, none => none
   | some a, some b => some (a + b)
 
-/-- `Cost::mul` compiled with overflow checks (debug profile): outer `none` = panic -/
-def mulChecked : V → V → Option V
+/-- `Cost::mul`: `(Infinity, _) | (_, Infinity) => Infinity`,
+`(Finite(a), Finite(b)) => Finite(a.checked_add(b).unwrap())`; outer `none` = panic -/
+def mul : V → V → Option V
   | none, _ => some none
   | _, none => some none
   | some a, some b =>
@@ -68,8 +71,8 @@ def mulChecked : V → V → Option V
     | some s => some (some s)
     | none => none
 
-/-- `Cost::mul` compiled without overflow checks (release profile): `a + b` wraps -/
-def mulWrapping : V → V → V
+/-- `Cost::mul` BEFORE the fix, compiled without overflow checks (release profile): `a + b` wraps -/
+def mulWrappingBeforeFix : V → V → V
   | none, _ => none
   | _, none => none
   | some a, some b => some (wrappingAdd a b)
